@@ -5,6 +5,7 @@ package main
 
 import (
 	"fmt"
+	"strconv"
 	"strings"
 
 	"verifsim/rt"
@@ -19,6 +20,7 @@ type arMember struct {
 	Data                                     []byte
 	BlankTime, BlankUID, BlankGID, BlankMode bool
 	NoPad                                    bool // omit the pad byte (only sensible for the last member)
+	ZeroPad                                  bool // numeric columns zero-padded to their full width
 
 	HdrOff, DataOff int // filled by renderAr
 }
@@ -34,6 +36,12 @@ func padTo(s string, n int) string {
 
 func arHeader(m *arMember, size string) string {
 	ts, uid, gid, mode := fmt.Sprint(m.Timestamp), fmt.Sprint(m.UID), fmt.Sprint(m.GID), m.Mode
+	if m.ZeroPad {
+		ts, uid, gid = fmt.Sprintf("%012d", m.Timestamp), fmt.Sprintf("%06d", m.UID), fmt.Sprintf("%06d", m.GID)
+		if n, err := strconv.Atoi(size); err == nil {
+			size = fmt.Sprintf("%010d", n)
+		}
+	}
 	if m.BlankTime {
 		ts = ""
 	}
@@ -120,6 +128,10 @@ func genArMember(t *rt.Tape, r *rt.Run, idx int, last bool) *arMember {
 	}
 	m.UID, m.GID = int64(t.Draw(100000, "ar.uid")), int64(t.Draw(100000, "ar.gid"))
 	m.Mode = arModes[t.Draw(len(arModes), "ar.mode")]
+	if t.Bool(1, 5, "ar.zeropad") {
+		m.ZeroPad = true
+		r.Probe("zero-padded-numeric-columns")
+	}
 	m.BlankTime, m.BlankUID, m.BlankGID, m.BlankMode = t.Bool(1, 6, "ar.bt"), t.Bool(1, 6, "ar.bu"), t.Bool(1, 6, "ar.bg"), t.Bool(1, 8, "ar.bm")
 	if m.BlankTime || m.BlankUID || m.BlankGID {
 		r.Probe("blank-numeric-column")
